@@ -76,13 +76,28 @@ func argumentsGetOwnProperty(obj *object, name string) *property {
 	return prop
 }
 
+// 10.6 [[DefineOwnProperty]].
 func argumentsDefineOwnProperty(obj *object, name string, descriptor property, throw bool) bool {
-	if _, exists := obj.value.(argumentsObject).get(name); exists {
+	arguments := obj.value.(argumentsObject)
+	if current, isMapped := arguments.get(name); isMapped {
+		if _, hasValue := descriptor.value.(Value); !hasValue && !descriptor.isAccessorDescriptor() {
+			// the current value lives in the parameter binding, not in the property table
+			descriptor.value = current
+		}
 		if !objectDefineOwnProperty(obj, name, descriptor, false) {
 			return obj.runtime.typeErrorResult(throw)
 		}
+		if descriptor.isAccessorDescriptor() {
+			// 5.a: an accessor property is no longer linked to the parameter
+			arguments.delete(name)
+			return true
+		}
 		if value, valid := descriptor.value.(Value); valid {
-			obj.value.(argumentsObject).put(name, value)
+			arguments.put(name, value)
+		}
+		if descriptor.writeSet() && !descriptor.writable() {
+			// 5.b.ii: neither is a read-only one
+			arguments.delete(name)
 		}
 		return true
 	}
